@@ -119,6 +119,7 @@ def run(ctx: Ctx) -> None:
         elif len(set(r["sel"])) < len(r["sel"]):
             ctx.nontrivial.add(("T", r["id"]))
     ctx.notes["relation_leg_histories"] = len(good)
+    ctx.require("relation leg: histories judged by Trace_Session", len(good), len(jobs) // 2)
     tf.unlink()
     rf.unlink(missing_ok=True)
     ctx.exhaustive = True
